@@ -75,35 +75,49 @@ fn count_classes(cur: u64, len: usize) -> Vec<(String, u64)> {
     v
 }
 
-/// undeclared values for an enum field of `len` bytes
+/// undeclared values for an enum field of `len` bytes; for upcast fields aliases of declared values
+/// modulo 2^8 / 2^16 are interleaved with the plain candidates so that the first few entries contain both
 pub fn undeclared_values(declared: &[u64], len: usize, upcast: bool) -> Vec<u64> {
     let max = max_of(len);
-    let mut out = Vec::new();
     let is_decl = |v: u64| declared.contains(&v);
+    let mut plain: Vec<u64> = Vec::new();
     for d in declared.iter().take(6) {
         for c in [d.wrapping_add(1) & max, d.wrapping_sub(1) & max] {
-            if !is_decl(c) && !out.contains(&c) {
-                out.push(c);
+            if !is_decl(c) && !plain.contains(&c) {
+                plain.push(c);
             }
         }
     }
-    if !is_decl(max) && !out.contains(&max) {
-        out.push(max);
+    if !is_decl(max) && !plain.contains(&max) {
+        plain.insert(plain.len().min(1), max);
     }
+    let mut alias: Vec<u64> = Vec::new();
     if upcast {
-        // aliases of declared values modulo 2^8 and 2^16
         for d in declared.iter().take(4) {
             for k in [1u64, 2, 255] {
                 for sh in [8u32, 16] {
-                    let c = d.wrapping_add(k << sh) & max;
-                    if !is_decl(c) && !out.contains(&c) {
-                        out.push(c);
+                    if (sh as usize) < len * 8 {
+                        let c = d.wrapping_add(k << sh) & max;
+                        if !is_decl(c) && !alias.contains(&c) && !plain.contains(&c) {
+                            alias.push(c);
+                        }
                     }
                 }
             }
         }
     }
-    out.truncate(10);
+    let mut out = Vec::new();
+    let (mut i, mut j) = (0, 0);
+    while out.len() < 12 && (i < plain.len() || j < alias.len()) {
+        if i < plain.len() {
+            out.push(plain[i]);
+            i += 1;
+        }
+        if j < alias.len() {
+            out.push(alias[j]);
+            j += 1;
+        }
+    }
     out
 }
 
